@@ -64,6 +64,20 @@ func (p *Path) intrinsic(caller *frame, fn *ssa.Function, name string, args []Va
 		}
 		*st = smt.ConstBV(32, 1)
 		return smt.True, true
+	case "strconv.FormatUint", "strconv.Itoa", "strconv.FormatInt":
+		if t, ok := args[0].(*smt.Term); ok && !t.IsConst() {
+			base := int64(10)
+			if len(args) > 1 {
+				base, _ = asInt(args[1])
+			}
+			if base == 10 && name == "strconv.FormatUint" {
+				return Str{tok: &FmtTok{Format: "%d", Arg: t}}, true
+			}
+		}
+	case "(*os.ProcessState).ExitCode":
+		return intConst(int64(p.exitCode)), true
+	case "(*os/exec.ExitError).ExitCode":
+		return intConst(int64(p.exitCode)), true
 	case "strconv.FormatFloat":
 		if x, ok := args[0].(XF); ok {
 			f, _ := asInt(args[1])
